@@ -441,11 +441,14 @@ class TimeTriggeredPlanValidator(engines.engine.Engine, mixins.PlanValidatorMixi
                 if instantiated_effect.kind == EffectKind.ASSIGN:
                     result[g_fluent] = se.evaluate(g_value, state=state)
                 else:
-                    f_value = (
-                        updates[g_fluent]
-                        if g_fluent in updates
-                        else state.get_value(g_fluent)
-                    )
+                    # an earlier instance of the same (quantified) effect may already
+                    # have changed the fluent: the increases accumulate
+                    if g_fluent in result:
+                        f_value = result[g_fluent]
+                    elif g_fluent in updates:
+                        f_value = updates[g_fluent]
+                    else:
+                        f_value = state.get_value(g_fluent)
                     if instantiated_effect.kind == EffectKind.DECREASE:
                         result[g_fluent] = se.evaluate(
                             em.Minus(f_value, g_value), state=state
